@@ -15,7 +15,8 @@ EXPLANATION = (
     "expect() or cmd[id] without a Some-guard. R1.3 error-ignoring polarity in Command::_do_parse, "
     "Parser::parse_subcommand and get_matches_with. R1.4 loop progress: the only backward cursor motion on the parse "
     "path is seek(Current(-1)) in the flag-subcommand branch, followed by loop exit. R1.5 ErrorKind::as_str table. "
-    "NOT decided: that the audited invariants hold for every command the debug gate accepts; termination beyond R1.4."
+    "R1.4b worklist termination: every pop/push worklist loop on the parse path either guards its pushes with a visited set that receives the same element (unroll_arg_requires), or is listed with the validity-gate assertion that excludes cycles, and that assertion is found in assert_app with its diverging false edge (unroll_args_in_group: every member of a group must be an ARGUMENT id, so groups cannot nest). "
+    "NOT decided: that the audited invariants hold for every command the debug gate accepts; termination of other loops."
 )
 TRUSTED = ["rustc MIR", "clapfacts", "lib/vset.py", "lib/panics.py discharge rules", "audit/panic.tsv (each entry read, one reason per line)"]
 ASSUMPTIONS = ["user-supplied value parsers / closures do not panic", "sums of lengths, counters and small constants do not overflow usize",
@@ -193,6 +194,52 @@ def run(ctx):
             res.check(has_bool(cb, c.bb, "T", r"is_ignore_errors_set\("), "R1.3", "get_matches_with|defaults-on-error|" + c.callee_q.rsplit("::", 1)[1], c.where(),
                       "env/defaults are added after a parse error only under ignore_errors", "env/defaults added after an error without the ignore_errors test")
 
+    # ---------------- R1.4b worklist loops terminate
+    GATED = {"clap_builder::builder::command::Command::unroll_args_in_group": "group members are argument ids (assert_app)"}
+    nwl = 0
+    for b in fx.bodies(r"^clap_builder::"):
+        if gate(b):
+            continue
+        for p in b.calls_to(r"Vec::pop$|VecDeque::pop_front$|BinaryHeap::pop$"):
+            wl = expr(b, p.args[0])
+            pushes = [c for c in b.calls_to(r"Vec::push$|VecDeque::push_back$|BinaryHeap::push$") if expr(b, c.args[0]) == wl and b.reaches(c.bb, p.bb) and b.reaches(p.bb, c.bb)]
+            if not pushes:
+                continue
+            nwl += 1
+            popped = "%s#Some.0" % expr(b, p.dest)
+            protected = True
+            for c in pushes:
+                pushed = expr(b, c.args[1])
+                okv = False
+                for g in guard_strs(b, c.bb):
+                    m = re.fullmatch(r"F:contains\((.*?),(.*)\)", g)
+                    if not m:
+                        continue
+                    S, x = m.group(1), m.group(2)
+                    if x not in (pushed, popped) and not pushed.startswith("get_id(") :
+                        continue
+                    # the visited collection must receive x on an edge compatible with this push (same or dominating block)
+                    recv = [q for q in b.calls_to(r"Vec::push$|insert$") if expr(b, q.args[0]) == S and expr(b, q.args[1]) == x and (b.block_dominates(q.bb, c.bb) or q.bb == c.bb)]
+                    if recv:
+                        okv = True
+                protected = protected and okv
+            if protected:
+                res.ok("R1.4", "worklist|" + b.q, p.where(), "pushes guarded by a visited set that receives the element")
+            elif b.q in GATED:
+                aa = fx.body("clap_builder::builder::debug_asserts::assert_app")
+                okg = False
+                for c in aa.calls_to(r"Iterator>?::any$"):
+                    if expr(aa, c.args[0]) != "get_arguments(cmd)" or not re.search(r"get_groups\(cmd\)\)\)#Some\.0\.args\)\)#Some\.0\)$", expr(aa, c.args[1])):
+                        continue
+                    br = aa.call_branch(c)
+                    cbs = closure_bodies(fx, c)
+                    if br and cbs and re.fullmatch(r"eq\(get_id\(x\),arg1\.0\)", expr(cbs[0], 0)) and br[1] not in aa.reachable(br[2]) and not [r for r in aa.return_blocks() if r in aa.reachable(br[2])]:
+                        okg = True
+                res.check(okg, "R1.4", "worklist-gated|" + b.q, p.where(), "no visited set, but the gate asserts: " + GATED[b.q],
+                          "%s re-queues group ids without a visited set and assert_app no longer insists that every group member is an argument id: a group reachable from itself makes parsing loop forever" % b.q.rsplit("::", 1)[1])
+            else:
+                res.violation("R1.4", "worklist|" + b.q, p.where(), "worklist loop pushes %s without a visited set and without a listed gate assertion: termination is not established" % [expr(b, c.args[1])[:50] for c in pushes])
+    res.floor("R1.4", "worklist loops in clap_builder", nwl, 2)
     # ---------------- R1.4 loop progress
     pred = fx.reachable_from(parse_entries(fx)[:2], stop=gate, crates={"clap_builder"})
     seeks = []
